@@ -63,14 +63,21 @@ def size_for_total(case, total):
 
 # ------------------------------------------------------------------ case space
 
+def sizes_B(ctx):
+    """Boundary set B: quick up to 64 KB+1; thorough up to 512 KB+1 plus 1 MiB+1 and 4 MiB+3."""
+    if ctx.quick:
+        return br.boundary_sizes(ctx.tree, 65536)
+    return br.boundary_sizes(ctx.tree, 4 << 20, extra=((1 << 20) + 1, (4 << 20) + 3))
+
+
 def all_cases(ctx):
     """The whole (tier-dependent) case list, in a fixed order.  Every case is a JSON-able dict."""
     T = not ctx.quick
     k = br.tree_constants(ctx.tree)
     page = k['SM_PAGE_SIZE']
     limit = (4 << 20) if T else 65536
-    B = br.boundary_sizes(ctx.tree, limit)
-    Bq = [s for s in B if s <= limit + 1]
+    B = sizes_B(ctx)
+    Bq = B
     bnd = br.boundaries(ctx.tree, limit)
     cases = []
 
@@ -93,9 +100,9 @@ def all_cases(ctx):
                 for a in range(1, total):
                     add('split2', seg=[a], **base)
     if T:
-        for fr, ck in (('cl', '-'), ('chunked', 'halves'), ('close', '-')):
+        for fr, ck, size3 in (('cl', '-', 3), ('chunked', 'halves', 3), ('close', '-', 3), ('chunked', 'b1', 2), ('chunked', 'exttrailer', 1)):
             for ver in ('1.1', '1.0'):
-                base = {'fr': fr, 'ck': ck, 'size': 3, 'ver': ver, 'st': 200, 'cache': 0}
+                base = {'fr': fr, 'ck': ck, 'size': size3, 'ver': ver, 'st': 200, 'cache': 0}
                 h, p, _b = origin_message(dict(base, ck=ck))
                 total = len(h) + len(p)
                 for a in range(1, total):
@@ -443,8 +450,7 @@ def run(ctx):
     truncated = sum(v for k, v in oc.items() if ':truncated+close' in k.split(' | ')[0])
     hits = sum(v for k, v in oc.items() if '2nd:hit:' in k)
     misses = sum(v for k, v in oc.items() if '2nd:miss:' in k)
-    relayed = sum(v for k, v in oc.items() if k.split(':')[0] not in ('error-page', 'closed-without-response', 'no-response', 'squid-crashed')
-                  and not k.startswith('origin-requests'))
+    relayed = sum(v for k, v in oc.items() if '>' in k.split(' | ')[0].split(':')[0])
     done = r['evaluations'] == len(cases) and not r['deadline_hit']
     if not r['violations'] and done:
         if complete < len(cases) // 3 or truncated < 20 or hits < 20 or misses < 5:
@@ -460,7 +466,7 @@ def run(ctx):
            'outcome_classes': oc, 'exhaustive': done, 'kicks': r['kicks'], 'determinism_replays': r['replays'],
            'cases_total': len(cases), 'cases_per_family': fams, 'complete_relays': complete, 'visible_truncations': truncated,
            'cache_hits_checked': hits, 'second_request_misses': misses,
-           'sizes_B': br.boundary_sizes(ctx.tree, (4 << 20) if not ctx.quick else 65536)}
+           'sizes_B': sizes_B(ctx)}
     return Result(LEVEL, cov, vio, ASSUME)
 
 
